@@ -841,9 +841,48 @@ theorem stringInSlice_iff {lower : String → String} {x : String} {xs : List St
   unfold stringInSlice Spec.Authz.memCI
   simp
 
-/-- `Arguments.Matches` against a combination without case-variant duplicates is set equality -/
+theorem eraseDups_length_le {α : Type} [BEq α] [LawfulBEq α] : ∀ (n : Nat) (l : List α), l.length ≤ n →
+    l.eraseDups.length ≤ l.length
+  | 0, l, h => by
+    have : l = [] := List.eq_nil_of_length_eq_zero (by omega)
+    subst this; simp
+  | n + 1, [], _ => by simp
+  | n + 1, a :: t, h => by
+    rw [List.eraseDups_cons]
+    have hf : (t.filter (fun b => !b == a)).length ≤ t.length := List.length_filter_le _ _
+    have := eraseDups_length_le n (t.filter (fun b => !b == a)) (by simp only [List.length_cons] at h; omega)
+    simp only [List.length_cons]
+    omega
+
+/-- a list whose `eraseDups` is as long as itself has no duplicates -/
+theorem nodup_of_eraseDups_length {α : Type} [BEq α] [LawfulBEq α] : ∀ (n : Nat) (l : List α), l.length ≤ n →
+    l.eraseDups.length = l.length → l.Nodup
+  | 0, l, h, _ => by
+    have : l = [] := List.eq_nil_of_length_eq_zero (by omega)
+    subst this; exact List.nodup_nil
+  | n + 1, [], _, _ => List.nodup_nil
+  | n + 1, a :: t, h, he => by
+    rw [List.eraseDups_cons] at he
+    simp only [List.length_cons] at he h
+    have hf : (t.filter (fun b => !b == a)).length ≤ t.length := List.length_filter_le _ _
+    have hle := eraseDups_length_le n (t.filter (fun b => !b == a)) (by omega)
+    have hfl : (t.filter (fun b => !b == a)).length = t.length := by omega
+    have hall : ∀ b ∈ t, (!b == a) = true := by
+      have := List.length_filter_eq_length_iff.1 hfl
+      exact this
+    have hft : t.filter (fun b => !b == a) = t := List.filter_eq_self.2 hall
+    have hnot : a ∉ t := by
+      intro hm
+      have := hall a hm
+      simp at this
+    rw [hft] at he
+    have hnd := nodup_of_eraseDups_length n t (by omega) (by omega)
+    exact List.nodup_cons.2 ⟨hnot, hnd⟩
+
+/-- `Arguments.Matches` is set equality up to case (since repair f1e5ad8 without any hypothesis on the
+    registration; before, a combination listing one name twice in different case matched other sets) -/
 theorem argsMatches_sameSet {lower : String → String} {r items : List String}
-    (hnd : (items.map lower).Nodup) (h : argsMatches lower r items = true) :
+    (h : argsMatches lower r items = true) :
     Spec.Authz.sameSetCI lower r items := by
   have hall := argsMatches_all h
   unfold argsMatches at h
@@ -851,19 +890,25 @@ theorem argsMatches_sameSet {lower : String → String} {r items : List String}
   · cases h
   · rename_i hlen
     have hlen' : r.length = items.length := by simpa using hlen
-    have hsub : ∀ v ∈ items.map lower, v ∈ r.map lower := by
-      intro v hv
-      obtain ⟨it, hit, rfl⟩ := List.mem_map.1 hv
-      have := List.all_eq_true.1 hall it hit
-      obtain ⟨y, hy, hyl⟩ := stringInSlice_iff.1 this
-      exact List.mem_map.2 ⟨y, hy, hyl⟩
-    have hcov := nodup_subset_covers (items.map lower) (r.map lower) hnd hsub (by simp [hlen'])
-    constructor
-    · intro x hx
-      obtain ⟨it, hit, hitl⟩ := List.mem_map.1 (hcov (lower x) (List.mem_map.2 ⟨x, hx, rfl⟩))
-      exact ⟨it, hit, hitl⟩
-    · intro y hy
-      exact stringInSlice_iff.1 (List.all_eq_true.1 hall y hy)
+    split at h
+    · cases h
+    · have hcount : (items.map lower).eraseDups.length = (items.map lower).length := by
+        have : (items.map lower).eraseDups.length = r.length := by simpa using h
+        rw [this, hlen']; simp
+      have hnd : (items.map lower).Nodup := nodup_of_eraseDups_length _ _ (Nat.le_refl _) hcount
+      have hsub : ∀ v ∈ items.map lower, v ∈ r.map lower := by
+        intro v hv
+        obtain ⟨it, hit, rfl⟩ := List.mem_map.1 hv
+        have := List.all_eq_true.1 hall it hit
+        obtain ⟨y, hy, hyl⟩ := stringInSlice_iff.1 this
+        exact List.mem_map.2 ⟨y, hy, hyl⟩
+      have hcov := nodup_subset_covers (items.map lower) (r.map lower) hnd hsub (by simp [hlen'])
+      constructor
+      · intro x hx
+        obtain ⟨it, hit, hitl⟩ := List.mem_map.1 (hcov (lower x) (List.mem_map.2 ⟨x, hx, rfl⟩))
+        exact ⟨it, hit, hitl⟩
+      · intro y hy
+        exact stringInSlice_iff.1 (List.all_eq_true.1 hall y hy)
 
 
 /-! ### bridges to the vocabulary of `Spec/Authz.lean` -/
